@@ -10,7 +10,7 @@ from hypothesis import strategies as st
 
 from . import spec
 
-NS_URIS = ["http://a/", "http://a/x/", "http://b/ns#", "urn:c:", "http://d.org/"]
+NS_URIS = ["http://a/", "http://a/x/", "http://b/ns#", "urn:c:", "http://d.org/", "http://A/", "http://a/my%20data/"]
 PREFIXES = ["ex", "p", "ex_1", "dn", "dn_1", "q"]
 RESERVED_PREFIXES = ["xsd", "prov", "xsi"]   # user declarations of these must be renamed, never shadow the built-ins
 ID_LOCALS = ["e1", "e2", "a1", "ag1", "x", "r1"]
@@ -267,6 +267,21 @@ def label_value(profile):
     )
 
 
+_PROV_CLASSES = ["Person", "Organization", "SoftwareAgent", "Plan", "Collection", "EmptyCollection", "Bundle",
+                 "Revision", "Quotation", "PrimarySource", "Entity"]
+
+
+def prov_class_spelling():
+    """a prov:type value that names a PROV class in one of four ways; only the qualified name IS that class, the
+    plain strings and the xsd:anyURI merely spell it and must stay what they are"""
+    return st.builds(
+        lambda c, how: {"qn": dict(prov_name(c), k="qn"),
+                        "str_uri": {"k": "str", "v": spec.PROV_NS + c},
+                        "str_pl": {"k": "str", "v": "prov:" + c},
+                        "uri": {"k": "uri", "v": spec.PROV_NS + c}}[how],
+        st.sampled_from(_PROV_CLASSES), st.sampled_from(["qn", "str_uri", "str_pl", "uri"]))
+
+
 @st.composite
 def attr_list(draw, profile="json", max_size=5):
     n = draw(st.integers(0, max_size))
@@ -275,6 +290,8 @@ def attr_list(draw, profile="json", max_size=5):
         nm = draw(attr_name(profile))
         if profile in ("xml", "io") and nm["ns"] == spec.PROV_NS and nm["local"] == "label":
             val = draw(label_value(profile))
+        elif nm["ns"] == spec.PROV_NS and nm["local"] == "type" and profile not in ("rdf", "io") and draw(st.integers(0, 3)) == 0:
+            val = draw(prov_class_spelling())
         else:
             val = draw(value(profile))
         out.append([nm, val])
